@@ -931,6 +931,56 @@ def _forward_process_temps(fn):
             n.body.append(ast.Pass())
 
 
+def _forward_flags(fn):
+    """N10: `ok = pred(...)` immediately followed by `if ok:` / `if not ok:` (ok used nowhere
+    else): the call takes the flag's place in the test."""
+    loads, stores = {}, {}
+    for n in _walk_no_nested(fn):
+        if isinstance(n, ast.Name):
+            d = loads if isinstance(n.ctx, ast.Load) else stores
+            d[n.id] = d.get(n.id, 0) + 1
+    changed = [False]
+
+    def block(stmts):
+        i = 0
+        while i < len(stmts):
+            st = stmts[i]
+            for field in ('body', 'orelse', 'finalbody'):
+                sub = getattr(st, field, None)
+                if isinstance(sub, list) and not isinstance(st, (ast.FunctionDef, ast.AsyncFunctionDef, ast.ClassDef)):
+                    block(sub)
+            for h in getattr(st, 'handlers', []) or []:
+                block(h.body)
+            if isinstance(st, ast.Assign) and len(st.targets) == 1 and isinstance(st.targets[0], ast.Name) \
+                    and isinstance(st.value, ast.Call) and i + 1 < len(stmts) and isinstance(stmts[i + 1], ast.If):
+                x = st.targets[0].id
+                nxt = stmts[i + 1]
+                uses = [n for n in ast.walk(nxt.test) if isinstance(n, ast.Name) and n.id == x]
+                if loads.get(x, 0) == 1 and stores.get(x, 0) == 1 and len(uses) == 1:
+                    t = nxt.test
+                    if t is uses[0]:
+                        nxt.test = st.value
+                    elif isinstance(t, ast.UnaryOp) and isinstance(t.op, ast.Not) and t.operand is uses[0]:
+                        t.operand = st.value
+                    elif isinstance(t, ast.BoolOp) and t.values and (t.values[0] is uses[0] or (
+                            isinstance(t.values[0], ast.UnaryOp) and isinstance(t.values[0].op, ast.Not)
+                            and t.values[0].operand is uses[0])):
+                        # first operand: evaluated unconditionally, in the same place
+                        if t.values[0] is uses[0]:
+                            t.values[0] = st.value
+                        else:
+                            t.values[0].operand = st.value
+                    else:
+                        i += 1
+                        continue
+                    del stmts[i]
+                    changed[0] = True
+                    continue
+            i += 1
+    block(fn.body)
+    return changed[0]
+
+
 def _closures(fn):
     """N9: local helper closures of `fn` -- nested defs and `name = lambda ...` bound exactly once.
     A call of a closure evaluates its body with the enclosing variables as they are at the call
@@ -1016,6 +1066,7 @@ def normalize_module(tree, no_inline, all_classes=None):
                 else:
                     break
             _forward_process_temps(fn)
+            _forward_flags(fn)
     for fn in [n for n in tree.body if isinstance(n, ast.FunctionDef)]:
         _forward_process_temps(fn)
     ast.fix_missing_locations(tree)
